@@ -564,11 +564,22 @@ def _all_pairs_angle_search(ctx, f, r: Result, ext, masks):
            f"{fmt(roles['j'].args[1])[:60]} — expected poses[i][:3, :3] and "
            f"poses[j][:3, :3]", key="C10.8:blocks")
     # candidates: ids[i+1:] of ids = 0..n-1, and as many copies of R_i
-    okc = cand.op == "sub" and cand.args[1] is T(
-        "slice", want_off, tm.NONE, tm.NONE)
-    base_ids = cand.args[0] if cand.op == "sub" else None
-    src_ids = index_source(base_ids) if base_ids is not None else None
-    okc = okc and src_ids is not None and src_ids == (0, 0)
+    okc = None
+    if cand.op == "sub" and cand.args[1].op == "slice":
+        # ids[i+1:] of ids = 0 .. n-1
+        src_ids = index_source(cand.args[0])
+        if src_ids is not None and src_ids[1] is not None:
+            okc = cand.args[1] is T("slice", want_off, tm.NONE, tm.NONE) \
+                and src_ids == (0, 0)
+    elif is_call_to(cand, "builtins.range", "numpy.arange") and \
+            len(cand.args[1]) == 2 and not cand.args[2]:
+        # range(i+1, n)
+        stop = cand.args[1][1]
+        n_ok = is_call_to(stop, "builtins.len") and stop.args[1] and \
+            stop.args[1][0] is POSES
+        okc = cand.args[1][0] is want_off and bool(n_ok)
+    if okc is None:
+        return undecided(f"candidate indices {fmt(cand)[:80]}")
     ctx.ob("C10.8", ext, bool(okc),
            "angle/all-pairs: the candidates of pose i are all later poses "
            "i+1 .. n-1" if okc else
